@@ -426,6 +426,33 @@ func ruleNarrowingGuarded(w *World, r *RuleResult) {
 			if fn == "(*BigInt).Int64" && hiOK && loOK {
 				ok, why = true, "after the value was compared with decimalMaxInt64 and decimalMinInt64"
 			}
+			// the value belongs to a parameter of an unexported helper: tested by every caller
+			if pr, isP := obj.(*ssa.Parameter); !ok && isP && (f.Object() == nil || !f.Object().Exported()) && !w.addressTaken(f) {
+				idx := -1
+				for i, q := range f.Params {
+					if q == pr {
+						idx = i
+					}
+				}
+				sites := w.allCallsTo(w.shortName(f))
+				all := idx >= 0 && len(sites) > 0
+				for _, sc := range sites {
+					found := false
+					if idx < len(sc.Common().Args) {
+						for _, g := range guardsAt(sc.Block()) {
+							if gc, isCall := g.Cond.(*ssa.Call); isCall && g.Val && w.calleeName(gc) == fit && basePtr(gc.Common().Args[0]) == basePtr(sc.Common().Args[idx]) {
+								found = true
+							}
+						}
+					}
+					if !found {
+						all = false
+					}
+				}
+				if all {
+					ok, why = true, fmt.Sprintf("the value is a parameter of the unexported %s, under %s() of the argument at each of its %d call sites", w.shortName(f), fit, len(sites))
+				}
+			}
 			if ok {
 				r.ok(key, w.instrPos(c), why, true)
 			} else {
